@@ -213,6 +213,26 @@ def r3(cx, rec):
                          'status[%s] is reserved on a path that returns %s: no request is sent, yet the piece is withheld from other peers' % (idx, rs[:60]))
 
 
+@TABLE.rule('3b', 'K8', 'a piece is reserved only for a peer that is not choking us: the acquiring path knows choked == false (or clears it)', floor=3)
+def r3b(cx, rec):
+    F = cx.F
+    for f in handlers(F):
+        for p, pf in paths_of(f):
+            ev = status_events(f, p)
+            acq = [(idx, bb) for kind, idx, bb, ish in ev if kind in ('inc', 'one')]
+            if not acq:
+                continue
+            at = pf['atoms']
+            not_choking = any(k.endswith('self.choked') and v is False for k, v in at.items()) or \
+                any(sp == 'self.choked' and const_of(v) and const_of(v)[0] == 0 for sp, v, b2 in pf['stores'])
+            wrong = [k for k, v in at.items() if k.endswith('choked') and not k.endswith('self.choked')]
+            for idx, bb in acq:
+                rec.site(f, bb, 'acquire(%s): peer known not to choke us on this path: %s' % (idx, not_choking))
+                rec.need(not_choking, 'acquire-while-choked/' + f.path, f, bb,
+                         'status[%s] is reserved on a path that does not establish that the peer is not choking us (self.choked == false): the piece is '
+                         'withheld from other peers although this peer will not serve it' % idx)
+
+
 @TABLE.rule('4', 'K8', 'the choke handler releases the recorded element and records choked = true', floor=2)
 def r4(cx, rec):
     F = cx.F
@@ -309,6 +329,24 @@ def r6(cx, rec):
                     break
             rec.site(f, bb, 'request for own index %s under status == Missing after pieces[i] = true: %s' % (ip, ok))
             rec.need(ok, 'request-unadvertised/' + f.path, f, bb, 'a piece is requested that the peer did not advertise or that is not Missing')
+
+
+@TABLE.rule('6b', 'K1', 'the chooser sees the up-to-date statuses: in a handler that changes a status itself, the change precedes the choice', floor=2)
+def r6b(cx, rec):
+    F = cx.F
+    from rules import C13
+    Ch = F.owner_fn(C13.chooser(F)).path
+    for f in F.user_fns():
+        chs = C.calls_to_fn(F, f, Ch)
+        if not chs:
+            continue
+        direct = [bi for bi, si, s in f.stores() if (lambda le: le[0] == 'call' and le[4].get('name') == 'index_mut' and 'pieces_status' in show(le[2][0]))(f.expr_place(s['lhs']))]
+        for cb in chs:
+            late = [b for b in direct if b in f.reach_from(cb)]
+            rec.site(f, cb, 'chooser call; own status stores: %d, after the choice: %d' % (len(direct), len(late)))
+            rec.need(not late, 'choice-before-status-update/' + F.owner_fn(f).path, f, cb,
+                     'the piece is chosen before this handler has updated the status vector: the piece that was just completed/released is still '
+                     'seen in its old state and can be chosen again (in end game: a piece already owned is requested once more)')
 
 
 ALLOW = {
